@@ -193,6 +193,32 @@ def _work_handles():
         h["configuration"]["big"].get_file_object().open().read()
 
     yield "handle:hyperv:valid", hyperv, False
+
+    # a file that was not closed cleanly: the replay log announces outstanding entries (target offset, size, where the data
+    # lies in the log); reading the configuration is not the moment to apply them to the evidence
+    import struct as _struct
+
+    for n_ent in (1, 3):
+        raw = bytearray(hv)
+        _struct.pack_into("<I", raw, 0x8008, n_ent)
+        for i in range(n_ent):
+            data_at = 0x400 + 0x40 * i
+            _struct.pack_into("<QIIIII", raw, 0x8000 + 0x22 + 28 * i, 0x10040 + 0x20 * i, 8, data_at, 0, 0, 0)
+            raw[0x8000 + data_at:0x8000 + data_at + 8] = b"REPLAYED"
+        unclean = bytes(raw)
+
+        def hyperv_unclean(unclean=unclean):
+            from dissect.hypervisor.descriptor.hyperv import HyperVFile
+
+            fh = _bio(unclean)
+            try:
+                HyperVFile(fh).as_dict()
+            except Exception:
+                pass
+            if fh.getvalue() != unclean:
+                vfile.MUTATIONS.append(("hyperv", "content-changed", "replay log applied to the caller's handle"))
+
+        yield f"handle:hyperv:unclean-replay-log-{n_ent}", hyperv_unclean, True
     key, iv = BE.det("k", 32), BE.det("iv", 12)
     env, _ = BE.build(BE.det("p", 5000), key, iv, padding=3)
 
@@ -420,6 +446,15 @@ def _work_paths(vm, g0):
         return g
 
     yield "path:vhdx:missing-parent", expect_fail(lambda: vhdx(Path(vm) / "orphan.avhdx")), True
+
+    for mode in ("r+b", "a+b"):
+        def vhdx_rw_handle(mode=mode):
+            # the caller's own handle is writable (its business); what the library opens itself -- the parent -- is not
+            with open(os.path.join(vm, "diff.avhdx"), mode) as fh:
+                fh.seek(0)
+                vhdx(fh)
+
+        yield f"path:vhdx:chain-through-{mode}-handle", vhdx_rw_handle, False
 
     def vmdk(arg):
         from dissect.hypervisor.disk.vmdk import VMDK
